@@ -145,9 +145,9 @@ func itemsJSON(items []stackitem.Item) []string {
 // Every generated loop has a constant bound, so a terminating Go call needs a
 // few thousand instructions; far beyond that the VM side is taken to diverge.
 const (
-	stepBound    = 3_000_000
-	stepBoundMsg = "step bound exceeded (3e6 instructions)"
-	gasBound     = 20_0000_0000
+	stepBound    = 400_000
+	stepBoundMsg = "step bound exceeded (4e5 instructions)"
+	gasBound     = 5_0000_0000
 )
 
 // vmOutcome is the result of one execution on the neo-go side.
